@@ -335,7 +335,7 @@ func (e *explorer) runGrammar(gr *gfam.Grammar, onlyInput *string) {
 				if e.prop == "C10" && !gr.NamesElided {
 					w.Count("respacing_comparisons", 1)
 				}
-				if len(in) >= 3 && ki == 1 {
+				if len(in) >= 3 && ki == 1 && strings.Count(rend, "\"") >= 4 && strings.Contains(gr.Root.Source(), "|") {
 					w.Sample(map[string]any{"grammar": gr.Root.Source(), "input": in, "config": cfg, "ast": rend})
 				}
 			}
